@@ -337,7 +337,10 @@ where
 	}
 }
 
-impl<'a, L> IntoIterator for &'a mut RetryingLockCollection<L>
+// mutable access to the underlying collection could be used to add a lock that
+// is already in it (the duplicate check of `try_new` only runs once), so it is
+// only available when the collection owns its locks
+impl<'a, L: OwnedLockable> IntoIterator for &'a mut RetryingLockCollection<L>
 where
 	&'a mut L: IntoIterator,
 {
@@ -370,7 +373,7 @@ impl<T: ?Sized, L: AsRef<T>> AsRef<T> for RetryingLockCollection<L> {
 	}
 }
 
-impl<T: ?Sized, L: AsMut<T>> AsMut<T> for RetryingLockCollection<L> {
+impl<T: ?Sized, L: AsMut<T> + OwnedLockable> AsMut<T> for RetryingLockCollection<L> {
 	fn as_mut(&mut self) -> &mut T {
 		self.data.as_mut()
 	}
@@ -497,7 +500,10 @@ impl<L> RetryingLockCollection<L> {
 	/// assert_eq!(*guard, 42);
 	/// ```
 	#[must_use]
-	pub fn child_mut(&mut self) -> &mut L {
+	pub fn child_mut(&mut self) -> &mut L
+	where
+		L: OwnedLockable,
+	{
 		&mut self.data
 	}
 
@@ -843,7 +849,7 @@ where
 	}
 }
 
-impl<'a, L: 'a> RetryingLockCollection<L>
+impl<'a, L: OwnedLockable + 'a> RetryingLockCollection<L>
 where
 	&'a mut L: IntoIterator,
 {
